@@ -80,6 +80,23 @@ pub fn laws() -> Vec<Law> {
         l("monotone EW right", "%r% EW %p%", "%r% EW (%p% | %q%)", Rel::Sub, 3),
         l("monotone AW left", "%p% AW %r%", "(%p% | %q%) AW %r%", Rel::Sub, 3),
         l("monotone AW right", "%r% AW %p%", "%r% AW (%p% | %q%)", Rel::Sub, 3),
+        // the one-argument fixed-point laws and dualities with a COMPOUND argument (an operator directly above a connective)
+        l("EF fixed point over |", "EF (%p% | %q%)", "(%p% | %q%) | EX (EF (%p% | %q%))", Rel::Eq, 2),
+        l("EG fixed point over |", "EG (%p% | %q%)", "(%p% | %q%) & EX (EG (%p% | %q%))", Rel::Eq, 2),
+        l("AF fixed point over |", "AF (%p% | %q%)", "(%p% | %q%) | AX (AF (%p% | %q%))", Rel::Eq, 2),
+        l("AG fixed point over |", "AG (%p% | %q%)", "(%p% | %q%) & AX (AG (%p% | %q%))", Rel::Eq, 2),
+        l("EF fixed point over &", "EF (%p% & %q%)", "(%p% & %q%) | EX (EF (%p% & %q%))", Rel::Eq, 2),
+        l("EG fixed point over &", "EG (%p% & %q%)", "(%p% & %q%) & EX (EG (%p% & %q%))", Rel::Eq, 2),
+        l("AF fixed point over &", "AF (%p% & %q%)", "(%p% & %q%) | AX (AF (%p% & %q%))", Rel::Eq, 2),
+        l("AG fixed point over &", "AG (%p% & %q%)", "(%p% & %q%) & AX (AG (%p% & %q%))", Rel::Eq, 2),
+        l("EG over | contains both", "(EG %p%) | (EG %q%)", "EG (%p% | %q%)", Rel::Sub, 2),
+        l("AF over & inside both", "AF (%p% & %q%)", "(AF %p%) & (AF %q%)", Rel::Sub, 2),
+        l("EX over | distributes", "EX (%p% | %q%)", "(EX %p%) | (EX %q%)", Rel::Eq, 2),
+        l("AX over & distributes", "AX (%p% & %q%)", "(AX %p%) & (AX %q%)", Rel::Eq, 2),
+        l("EF over | distributes", "EF (%p% | %q%)", "(EF %p%) | (EF %q%)", Rel::Eq, 2),
+        l("AG over & distributes", "AG (%p% & %q%)", "(AG %p%) & (AG %q%)", Rel::Eq, 2),
+        l("EG of a negation", "EG (~ %p%)", "(~ %p%) & EX (EG (~ %p%))", Rel::Eq, 1),
+        l("AF of a negation", "AF (~ %p%)", "(~ %p%) | AX (AF (~ %p%))", Rel::Eq, 1),
     ]
 }
 
